@@ -274,7 +274,7 @@ func runC20(tier string) int {
 	r.Assume("one statement per line, so the reported start line identifies the offending construct",
 		"offending construct: the break / continue, the second case with the same value, the second default, the second const, the user text / movement statement, the label")
 	return r.Finish(r.Get("evaluations"), r.Get("nontrivial"),
-		"every nesting chain of depth <= d over {if, else, elif, while, infinite while, do...while, switch case, default, poryswitch brace / colon case} under 3 roots (script, inline map script, table inline script) x 54 injections, plus chains of every depth up to the deep-chain bound in the coverage (each wrapper kind repeated, and all kinds rotating) (break / continue outside their scopes incl. after every closed loop / switch / if that contains another loop or switch, continue not last, duplicate case value incl. via a constant and multi-token, second default) + redefined constants, text / movement names equal to generated ones, script labels equal to every generated label of the renamed program and to text labels, the former also for every placement of the label (directly and inside every kind of block, in live code and after end / return / break / goto / an infinite loop); non-trivial = the program is ill-formed (an error is required)")
+		"every nesting chain of depth <= d over {if, else, elif, while, infinite while, do...while, switch case, default, poryswitch brace / colon case} under 3 roots (script, inline map script, table inline script) x 54 injections, plus chains of every depth up to the deep-chain bound in the coverage (each wrapper kind repeated, and all kinds rotating) (break / continue outside their scopes incl. after every closed loop / switch / if that contains another loop or switch, continue not last, duplicate case value incl. via a constant and multi-token, second default) + redefined constants (first value a number, the constant's own name, another constant, an unknown name, an expression; 3 placements of the second definition; constant cycles), text / movement names equal to generated ones, script labels equal to every generated label of the renamed program and to text labels, the former also for every placement of the label (directly and inside every kind of block, in live code and after end / return / break / goto / an infinite loop); non-trivial = the program is ill-formed (an error is required)")
 }
 
 // c20LabelPlacements: the label clash clause over every placement of a label: the dead-label programs of C04 put a
@@ -353,6 +353,26 @@ func c20TopLevel(r *harness.Run) {
 		tc{"const-redefined", "const A = 1\nconst B = 2\nconst A = 3\nscript S {\n\tx(A)\n}\n", 3},
 		tc{"const-redefined", "const A = 1\nscript S {\n\tx(A)\n}\nconst A = 1\n", 5},
 		tc{"const-redefined", "const A = 1\nconst B = A\nconst B = A\n", 3},
+	)
+	// ... systematically: the first value of A is a number, A's own name, another constant (defined before or after), an unknown
+	// name or an expression mentioning A; the second definition gives any value and stands directly after the first, after
+	// a script that uses A, or after further constants; a constant cycle counts as defined, too
+	for _, first := range []string{"1", "A", "B", "XYZ", "A + 1", "( A )", "0x4002"} {
+		for _, pre := range []string{"", "const B = 2\n", "const B = A\n"} {
+			for _, second := range []string{"3", "A", "B", first} {
+				head := pre + "const A = " + first + "\n"
+				n := strings.Count(head, "\n")
+				cases = append(cases,
+					tc{"const-redefined", head + "const A = " + second + "\nscript S {\n\tx(A)\n}\n", n + 1},
+					tc{"const-redefined", head + "script S {\n\tx(A)\n}\nconst A = " + second + "\nscript S2 {\n\ty(A)\n}\n", n + 4},
+					tc{"const-redefined", head + "const C = A\nconst D = C\nconst A = " + second + "\n", n + 3},
+				)
+			}
+		}
+	}
+	cases = append(cases,
+		tc{"const-redefined", "const A = B\nconst B = A\nconst B = 3\nscript S {\n\tx(B)\n}\n", 3},
+		tc{"const-redefined", "const A = B\nconst B = A\nconst A = 3\n", 3},
 	)
 	// text / movement named like a generated label
 	for _, owner := range []string{"S", "M_ON_LOAD", "M_ON_FRAME_0"} {
